@@ -252,6 +252,9 @@ def build(cfg):
     import mrpro.operators as ops
     from mrpro.data import KTrajectory, Rotation, SpatialDimension
     cls = cfg['cls']
+    if cls == 'tree':        # derived operators (sums, compositions, scalings, .H of EinsumOp / IdentityOp leaves), see props/C01.py
+        from props import C01
+        return C01._build_tree(cfg['tree']), [cfg['n']]
     if cls == 'ZeroPadOp':
         orig = [cfg['shape'][a] for a in cfg['axes']]
         return ops.ZeroPadOp(dim=cfg['dims'], original_shape=orig, padded_shape=cfg['new']), cfg['shape']
